@@ -235,3 +235,10 @@ def run_struct(case):
     except NotImplementedError as e:
         out["api"] = None
     return out
+
+
+def run_strop(case):
+    B = make_backend(case["k"])
+    b = B()
+    leaf = ConditionFieldEqualsValueExpression("f", SigmaString(case["s"]))
+    return {"text": b.convert_condition_field_eq_val_str(leaf, ConversionState())}
